@@ -7,16 +7,18 @@
    variables  slot -> m_data (an id or null).
    - strdata(): refcount = alloced = len = 0; AddRef; DelRef (frees when refcount is 0).
    - EnsureAlloced(amount, keepold) with its early returns exactly as written: null m_data
-     and amount > 1 -> fresh storage (alloced = amount, data[0] = 0); null and amount <= 1
+     and amount > 0 -> fresh storage (alloced = amount, data[0] = 0); null and amount = 0
      -> m_data stays null; sole owner with amount <= alloced -> nothing; shared and
      amount < alloced -> amount = alloced; then the reallocation path, which constructs a
-     new strdata (so alloced = 0 and len = 0: the code sets neither), copies the old C
-     string when keepold, DelRef()s the old storage.
+     new strdata, sets alloced = amount, with keepold copies the old C string (the bytes up
+     to the first 0, NOT len bytes) and the old len, otherwise stores a 0 at the start, and
+     DelRef()s the old storage.
    - EnsureDataWritable (m_data = nullptr; EnsureAlloced(len + 1, false); copyn of
      len + 1; m_data->len = len; olddata->DelRef()).
    - operator=(const str&), the copy constructor (after the destructor of the slot),
      operator=(const char* ) with its "same pointer" punt, append(const char* ),
-     append(char), append(const str&) (the three operator+= call them), the non-const and
+     append(char), append(const str&) with its self-append guard (a temporary copy of the
+     string is appended) (the three operator+= call them), the non-const and
      const operator[], CapLength, operator-= (operator-- is -= 1), clear, tolower/toupper,
      resize, reserve, assign(text, n), length, c_str, operator==, cmp, icmp.
    - the C helpers copy / copyn / cat / len work on the raw bytes: a write beyond the
@@ -187,15 +189,16 @@ Definition realloc (s : st) (v id : N) (d : sdata) (amount : nat) (keepold : boo
   do nb <- (if keepold
             then do l <- ov (cstr (buf d));                         (* copy(newbuffer, m_data->data()) *)
                  ov (write_at (repeat poison amount) 0 (l ++ [0%N]))
-            else Ok (repeat poison amount));
-  let s1 := new_data s (mkD 0 0 0 nb) in           (* the constructor: alloced = len = 0 *)
+            else ov (write_at (repeat poison amount) 0 [0%N]));     (* newbuffer[0] = 0 *)
+  (* newdata->alloced = amount; newdata->len = m_data->len when keepold *)
+  let s1 := new_data s (mkD 0 amount (if keepold then dlen d else 0) nb) in
   do s2 <- del_ref s1 id;
   Ok (set_var s2 v (Some (nxt s))).
 
 Definition ensure_alloced (s : st) (v : N) (amount : nat) (keepold : bool) : outcome st :=
   match get (vars s) v with
   | None =>
-      if Nat.ltb 1 amount
+      if Nat.ltb 0 amount
       then Ok (set_var (new_data s (mkD 0 amount 0 (0%N :: repeat poison (amount - 1)))) v (Some (nxt s)))
       else Ok s
   | Some id =>
@@ -247,15 +250,16 @@ Definition append_char (s : st) (v : N) (c : N) : outcome st :=
     do nb <- ov (write_at (buf d) len [c; 0%N]);
     Ok (upd s1 id (mkD (refc d) (alloced d) (len + 1) nb))).
 
-(* append(const str&); text.c_str() is read after EnsureAlloced *)
-Definition append_str (s : st) (v w : N) : outcome st :=
+(* the body of append(const str& text) for a text other than the string itself: [lw] is
+   text.length() (read before EnsureAlloced), [src] gives text.m_data when text.c_str() is
+   read (after EnsureAlloced) *)
+Definition append_src (s : st) (v : N) (lw : nat) (src : st -> option N) : outcome st :=
   do lv <- length_of s v;
-  do lw <- length_of s w;
   let len := lv + lw in
   do s1 <- ensure_alloced s v (len + 1) true;
   with_data s1 v (fun id d =>
     do cur <- ov (cstr (buf d));
-    do nb <- match get (vars s1) w with
+    do nb <- match src s1 with
              | None => ov (write_at (buf d) (length cur) [0%N])
              | Some idw =>
                  if N.eqb idw id
@@ -265,6 +269,18 @@ Definition append_str (s : st) (v w : N) : outcome st :=
                       ov (write_at (buf d) (length cur) (t ++ [0%N]))
              end;
     Ok (upd s1 id (mkD (refc d) (alloced d) len nb))).
+
+(* append(const str&): if (&text == this) { const base_str self(text); append(self); return; } *)
+Definition append_str (s : st) (v w : N) : outcome st :=
+  if N.eqb v w then
+    let p := get (vars s) v in                                      (* self.m_data *)
+    do s0 <- match p with Some id => add_ref s id | None => Ok s end;
+    do lw <- match p with Some id => do d <- deref s0 id; Ok (dlen d) | None => Ok O end;
+    do s1 <- append_src s0 v lw (fun _ => p);
+    match p with Some id => del_ref s1 id | None => Ok s1 end       (* ~self *)
+  else
+    do lw <- length_of s w;
+    append_src s v lw (fun s1 => get (vars s1) w).
 
 (* operator=(const str&) : AddRef first, then DelRef, then take the pointer *)
 Definition assign_str (s : st) (v w : N) : outcome st :=
@@ -362,7 +378,8 @@ Definition resize (s : st) (v : N) (n : nat) : outcome st :=
   with_data s1 v (fun id d =>
     let start := dlen d in
     do nb <- ov (write_at (buf d) start (repeat 0%N (n + 1 - start)));
-    Ok (upd s1 id (mkD (refc d) (alloced d) n nb))).
+    do nb' <- ov (write_at nb n [0%N]);                             (* also when shrinking *)
+    Ok (upd s1 id (mkD (refc d) (alloced d) n nb'))).
 
 Definition reserve (s : st) (v : N) (n : nat) : outcome st :=
   ensure_alloced s v (n + 1) true.
